@@ -496,11 +496,12 @@ struct Sess {
     check_app_memory("build", true);
     uint64_t hh = fnv1a(out, L);
     tr("build " + std::to_string(esi), hh);
-    if (!code->cw.empty() && sc.cfg.codec != CODEC_P2D) {
+    if (!code->cw.empty()) {
       const std::vector<uint8_t>& want = code->sym(esi);
       if (L && memcmp(out, want.data(), L) != 0) {
         uint32_t b = 0; while (b < L && ((uint8_t*)out)[b] == want[b]) b++;
-        cx.fail(O_ENC, "repair_symbol_wrong", "repair esi=" + std::to_string(esi) + " differs from the canonical codeword at byte " + std::to_string(b));
+        if (sc.cfg.codec == CODEC_P2D) cx.fail(O_2D, "encoder_violates_check", "2D repair esi=" + std::to_string(esi) + " is not the XOR of the sources of its check (byte " + std::to_string(b) + ")");
+        else cx.fail(O_ENC, "repair_symbol_wrong", "repair esi=" + std::to_string(esi) + " differs from the canonical codeword at byte " + std::to_string(b));
       }
       // non-triviality: depends on >= 2 sources and payload not all-zero
       if (sc.cfg.payload != PAY_ZERO) cx.features |= F_ENC_DEP2;
